@@ -11,7 +11,7 @@ def showErr : Err → String
   | .dotSegments => "err dot" | .emptySegments => "err empty"
 
 def showRsync (u : Rsync) : String :=
-  s!"ok {u.moduleStart} {u.pathStart} {hexN u.authority} {hexN u.moduleName} {hexN u.path}"
+  s!"ok {u.moduleStart} {u.pathStart} {hexN u.authority} {hexN u.moduleName} {hexN u.path} {hexN u.canonicalModule}"
 
 def showHttps (u : Https) : String := s!"ok {u.pathIdx} {hexN u.authority} {hexN u.path}"
 
@@ -47,7 +47,15 @@ def handle (toks : List String) (impl : String) : Verdict :=
             else
               let segs := split (b.drop 8)
               if (segs.dropLast.any (· = [])) ∨ segs.any (fun s => s = [dot] ∨ s = [dot, dot]) then some "empty or dot segment accepted"
-              else none
+              else
+                -- the canonical module is the module URI itself up to the case of scheme and authority
+                match parseHexN (field impl 6) with
+                | some cm =>
+                  let modUri := b.take 8 ++ a ++ [slash] ++ md ++ [slash]
+                  if cm.length = modUri.length ∧ eqIgnoreCase (cm.take (8 + a.length)) (modUri.take (8 + a.length)) ∧
+                     cm.drop (8 + a.length) = modUri.drop (8 + a.length) ∧ (cm.drop 8).take a.length = a.map toLower then none
+                  else some "canonical_module is not the module with a lower-case authority"
+                | none => some "unparseable"
           | _, _, _ => some "unparseable"
         else none
       { model := some m, oracle := o }
